@@ -28,8 +28,8 @@ MUTATIONS = {
 DMUT = {"dset_new": "v[2] = m0", "dset_old": "v[1] = m0", "dnested": "v[1].append(m0)", "dpop": "v.pop(1)", "dclear": "v.clear()"}
 
 
-def after_case(op, mut, old_src, approved, vals):
-    """one assertion, then the value is mutated"""
+def after_case(op, mut, old_src, approved, vals, top="list"):
+    """one assertion, then the value is mutated.  top: the compared value is a list or a tuple holding a list"""
     world.reset(dict(vals))
     x0, x1, m0 = vals["x0"], vals["x1"], vals["m0"]
     if op == "==":
@@ -40,10 +40,11 @@ def after_case(op, mut, old_src, approved, vals):
         line = f"    assert v in snapshot({old_src})"
     else:
         line = f"    s = snapshot({old_src})\n    assert s[1] == v"
-    t = HEAD + f"def test_a():\n    v = [x0, [x1]]\n{line}\n    {MUTATIONS[mut]}\n    keep.append(v)\n"
+    vsrc = "[x0, [x1]]" if top == "list" else "(x0, [x1])"
+    t = HEAD + f"def test_a():\n    v = {vsrc}\n{line}\n    {MUTATIONS[mut]}\n    keep.append(v)\n"
     W.ns["keep"] = []
     r = world.core_session(t, approved)
-    want = [x0, [x1]]
+    want = [x0, [x1]] if top == "list" else (x0, [x1])
     got = world.snapshot_values(r.text)[0]
     PathLog.record(f"{op}{mut}{old_src}{r.text}", nontrivial=r.changed, sample={"operation": op, "mutation_after_assert": MUTATIONS[mut], "previous": old_src or "<empty>", "approved": sorted(approved), "rewritten": world.snapshot_arg_sources(r.text)[0]})
     if r.outcomes.get("test_a") != "passed":
@@ -159,6 +160,13 @@ def conditions(tier):
                 body = f"return after_case({op!r}, {mut!r}, {old_src!r}, {approved!r}, {vd})"
                 conds.append(Cond(name, mkfn(name, names, body, GLB, pre=pre), timeout=600, group="after",
                                   bounds=f"v = [x0, [x1]]; assert v {op} snapshot({old_src}); then `{MUTATIONS[mut]}`; approved {sorted(approved)}; all ints symbolic"))
+    # shallowly immutable containers: a tuple that holds a list
+    for op, opn in (("==", "eq"), ("<=", "le"), ("in", "in"), ("[]", "gi")):
+        for mut in ("nested_set", "nested_append"):
+            name = f"after_tuple_{opn}_{mut}"
+            body = f"return after_case({op!r}, {mut!r}, '', {{'create'}}, {VD3}, 'tuple')"
+            conds.append(Cond(name, mkfn(name, V3, body, GLB), timeout=600, group="after",
+                              bounds=f"v = (x0, [x1]); assert v {op} snapshot(); then `{MUTATIONS[mut]}`; create"))
     for op, opn in (("<=", "le"), (">=", "ge"), ("in", "in")):
         for mut in MUTATIONS:
             if mut == "extend_nested_alias" and q:
